@@ -38,7 +38,7 @@ ReleaseRules(k) == {
   R(k, "name", "none", "reject"), R(k, "name", "int", "reject"), R(k, "short", "none", "reject"), R(k, "short", "int", "reject"),
   R(k, "version", "empty", "reject"), R(k, "version", "trailingdot", "reject"), R(k, "version", "doubledot", "reject"),
   R(k, "version", "alnum", "reject"), R(k, "version", "none", "reject"), R(k, "version", "int", "reject"),
-  R(k, "version", "nl", "reject"),
+  R(k, "version", "numnl", "reject"),          \* integers followed by a line feed (a free-form version may hold line feeds)
   R(k, "type", "unknown", "reject"), R(k, "type", "upper", "coerce"), R(k, "type", "empty", "reject"), R(k, "type", "none", "reject"),
   R(k, "is_layered", "str", "coerce"), R(k, "is_layered", "none", "coerce"), R(k, "is_layered", "int", "coerce"),
   R(k, "internal", "str", "coerce"), R(k, "internal", "none", "coerce"), R(k, "internal", "int", "coerce") }
@@ -89,7 +89,7 @@ ImageRules == {
 TiRules == {
   R("ti.release", "name", "none", "na"), R("ti.release", "short", "none", "na"),
   R("ti.release", "version", "trailingdot", "reject"), R("ti.release", "version", "alnum", "reject"), R("ti.release", "version", "none", "na"),
-  R("ti.release", "version", "nl", "na"),
+  R("ti.release", "version", "numnl", "na"),
   R("ti.release", "is_layered", "str", "reject"),
   R("ti.base_product", "name", "none", "na"), R("ti.base_product", "short", "none", "na"),
   R("ti.base_product", "version", "trailingdot", "reject"), R("ti.base_product", "version", "alnum", "reject"),
